@@ -88,7 +88,46 @@ func bytesOfElems(es []SElem) Slice {
 func (in *Interp) sprintf(format Str, args Slice) Str {
 	f, ok := format.concrete()
 	if !ok {
-		return in.strConst("<symbolic-format>")
+		// a format that is itself a rope (fmt.Printf(text) with a rendered text): concrete byte
+		// runs are formatted natively without operands, tokens are copied (the texts of
+		// numbers, booleans and null hold no '%'; string leaves are checked), a symbolic byte
+		// forks on being '%'
+		if len(args.v) != 0 {
+			panic(unsupported("fmt: symbolic format string with operands"))
+		}
+		var out []SElem
+		var run []byte
+		flush := func() {
+			if len(run) == 0 {
+				return
+			}
+			r := string(run)
+			if fmt.Sprintf(r+"\x00") != fmt.Sprintf(r)+"\x00" {
+				panic(unsupported("fmt: format verb continues into a symbolic part of the format"))
+			}
+			out = append(out, in.strConst(fmt.Sprintf(r)).elems...)
+			run = nil
+		}
+		for _, e := range format.elems {
+			switch {
+			case e.tok != nil:
+				if jvalMayHoldPercent(e.tok.val) {
+					panic(unsupported("fmt: symbolic format holding a string value"))
+				}
+				flush()
+				out = append(out, e)
+			case e.b.IsConst():
+				run = append(run, byte(e.b.val))
+			default:
+				if in.path.Branch(in.tt.Eq(e.b, in.tt.BV(8, '%'))) {
+					panic(unsupported("fmt: symbolic '%' in a format string"))
+				}
+				flush()
+				out = append(out, e)
+			}
+		}
+		flush()
+		return Str{elems: out}
 	}
 	var out []SElem
 	ai := 0
@@ -121,6 +160,27 @@ func (in *Interp) sprintf(format Str, args Slice) Str {
 		out = append(out, in.formatArg(a, verb).elems...)
 	}
 	return Str{elems: out}
+}
+
+// jvalMayHoldPercent: can the text of this value contain a '%'? (only string leaves / keys can)
+func jvalMayHoldPercent(j *JVal) bool {
+	switch j.kind {
+	case 's':
+		return true
+	case 'a':
+		for _, e := range j.arr {
+			if jvalMayHoldPercent(e) {
+				return true
+			}
+		}
+	case 'o':
+		for i, e := range j.vals {
+			if strings.Contains(j.keys[i], "%") || jvalMayHoldPercent(e) {
+				return true
+			}
+		}
+	}
+	return false
 }
 
 func (in *Interp) formatArg(a Iface, verb byte) Str {
@@ -430,6 +490,25 @@ func (e *Engine) registerModels() {
 		}
 		return nil
 	}
+	m["(encoding/binary.littleEndian).AppendUint64"] = func(in *Interp, fn *ssa.Function, a []Value) Value {
+		s := a[1].(Slice)
+		out := append([]Value(nil), s.v...)
+		for _, b := range leBytes(in.tt, a[2].(*Term)) {
+			out = append(out, b)
+		}
+		return Slice{v: out}
+	}
+	m["(encoding/binary.littleEndian).Uint64"] = func(in *Interp, fn *ssa.Function, a []Value) Value {
+		s := a[1].(Slice)
+		if len(s.v) < 8 {
+			in.runtimePanic("index out of range [7] (Uint64)")
+		}
+		parts := make([]*Term, 8)
+		for i := 0; i < 8; i++ {
+			parts[7-i] = s.v[i].(*Term)
+		}
+		return in.tt.Concat(parts...)
+	}
 	m["encoding/binary.Write"] = func(in *Interp, fn *ssa.Function, a []Value) Value {
 		w := a[0].(Iface)
 		data := a[2].(Iface)
@@ -672,6 +751,83 @@ func (e *Engine) registerModels() {
 	}
 	concStr2("strings.Trim", strings.Trim)
 	concStr2("strings.TrimLeft", strings.TrimLeft)
+	// TrimLeft on a rope: concrete bytes are compared with the cut set, a symbolic byte forks on
+	// membership, and a codec token is looked at through its first character: the text of a
+	// number starts with '-' exactly when its sign bit is set (then the rest is the text of the
+	// negated number), strings with '"', arrays with '[', objects with '{', null / booleans
+	// with n / t / f.
+	concTrimLeft := m["strings.TrimLeft"]
+	m["strings.TrimLeft"] = func(in *Interp, fn *ssa.Function, a []Value) Value {
+		str := a[0].(Str)
+		cut, ok := a[1].(Str).concrete()
+		if _, conc := str.concrete(); conc || !ok {
+			return concTrimLeft(in, fn, a)
+		}
+		tt := in.tt
+		es := str.elems
+		for len(es) > 0 {
+			e := es[0]
+			if e.tok == nil {
+				if e.b.IsConst() {
+					if !strings.ContainsRune(cut, rune(byte(e.b.val))) || e.b.val >= 0x80 {
+						break
+					}
+					es = es[1:]
+					continue
+				}
+				var in_ []*Term
+				for i := 0; i < len(cut); i++ {
+					if cut[i] >= 0x80 {
+						panic(unsupported("strings.TrimLeft: non-ASCII cut set on a symbolic string"))
+					}
+					in_ = append(in_, tt.Eq(e.b, tt.BV(8, uint64(cut[i]))))
+				}
+				if !in.path.Branch(tt.Or(in_...)) {
+					break
+				}
+				es = es[1:]
+				continue
+			}
+			j := e.tok.val
+			if e.tok.yaml {
+				panic(unsupported("strings.TrimLeft on a YAML token"))
+			}
+			switch j.kind {
+			case 'f':
+				if strings.ContainsAny(cut, "0123456789.eE+InfNa") {
+					panic(unsupported("strings.TrimLeft: cut set with number characters on a number token"))
+				}
+				if strings.Contains(cut, "-") {
+					bits := in.bitsOfFloat(j.f)
+					if in.path.Branch(tt.Eq(tt.Extract(63, 63, bits), tt.BV(1, 1))) {
+						// "-x" loses its sign; what remains is the text of the negated number
+						nb := tt.BvOp(OBvAnd, bits, tt.BV(64, ^uint64(1<<63)))
+						in.path.finite[nb.id] = true
+						rest := append([]SElem{{tok: &Tok{val: &JVal{kind: 'f', f: tt.FpOfBits(nb)}}}}, es[1:]...)
+						return Str{elems: rest}
+					}
+				}
+			case 's':
+				if strings.Contains(cut, "\"") {
+					panic(unsupported("strings.TrimLeft: cut set with a quote on a string token"))
+				}
+			case 'a':
+				if strings.Contains(cut, "[") {
+					panic(unsupported("strings.TrimLeft: cut set with '[' on an array token"))
+				}
+			case 'o':
+				if strings.Contains(cut, "{") {
+					panic(unsupported("strings.TrimLeft: cut set with '{' on an object token"))
+				}
+			default:
+				if strings.ContainsAny(cut, "ntf") {
+					panic(unsupported("strings.TrimLeft: cut set with letters on a null / boolean token"))
+				}
+			}
+			break
+		}
+		return Str{elems: es}
+	}
 	concStr2("strings.TrimRight", strings.TrimRight)
 	concStr2("strings.TrimPrefix", strings.TrimPrefix)
 	concStr2("strings.TrimSuffix", strings.TrimSuffix)
